@@ -35,6 +35,11 @@ def run(ctx):
     for cap in ("random", "one"):
         scen.append(dict(kind="wl", wl=dict(words=[wlfam.o(w) for w in big], nolist=0, len=4, cap=cap, sep="char", sepChar=wlfam.o("-")), maxTrials=0, failRateOne=0,
                          mode="paths", paths=0, maxLeaves=0, tag="big-list-one-fixed-word", reps=400 if quick else 4000))
+    # long recipes: the capitalisation bonus of `random' is Length bits also beyond 63 words, `one' log2(Length)
+    for L in (31, 32, 33, 63, 64, 65, 100, 128, 1000):
+        for cap in ("random", "one", "all"):
+            wl = dict(words=[wlfam.o(w) for w in ("one", "two", "three", "kettő", "zebra")], nolist=0, len=L, cap=cap, sep="char", sepChar=wlfam.o("-"))
+            scen.append(dict(kind="wl", wl=wl, maxTrials=0, failRateOne=0, mode="paths", paths=0, maxLeaves=0, tag="long-recipe", reps=3))
     files, cells, leaves = wlfam.run_scenarios(ctx, scen, "c08")
     verdicts, decided = wlfam.validate(ctx, files)
     ctx.evaluations = len(scen) * reps
